@@ -29,7 +29,7 @@ ASSUMPTIONS = [
     "oracle: positions from sorted()/list lookup/counting, expected = np.take on an object copy; moved values compared exactly",
     "setna lists are non-empty; dict keys cover every label",
 ]
-MANDATORY = ["sort_axis", "sort_axis:key", "sort_axis:dict", "take_axis:label", "take_axis:position", "take_axis:repeats", "compress_axis",
+MANDATORY = ["take_axis:negative-position", "sort_axis", "sort_axis:key", "sort_axis:dict", "take_axis:label", "take_axis:position", "take_axis:repeats", "compress_axis",
              "compress:nd", "dropna:minvalid", "dropna:default", "dropna:1d", "dropna:partial", "fillna", "fillna:inplace", "setna:value",
              "setna:list", "setna:mask", "setna:int-data", "axis:not-first", "labels:shuf", "labels:s"]
 
@@ -74,7 +74,7 @@ def case_st(draw):
         if draw(st.booleans()):
             p = {"indexing": "label", "indices": draw(st.lists(st.sampled_from(labs), min_size=0, max_size=5))}
         else:
-            p = {"indexing": "position", "indices": draw(st.lists(st.integers(0, n - 1), min_size=0, max_size=5))}
+            p = {"indexing": "position", "indices": draw(st.lists(st.integers(-n, n - 1), min_size=0, max_size=5))}
         p["as"] = draw(st.sampled_from(["list", "array"]))
     elif op == "compress_axis":
         p["mask"] = draw(st.lists(st.booleans(), min_size=n, max_size=n))
@@ -180,7 +180,9 @@ def run_case(case):
             canon = [core.canon_label(x) for x in labs]
             pos = [canon.index(core.canon_label(x)) for x in ind]
         else:
-            pos = list(ind)
+            pos = [i % n for i in ind]          # negative positions count from the end, as in NumPy
+            if any(i < 0 for i in ind):
+                cl.add("take_axis:negative-position")
         arg = list(ind) if p["as"] == "list" else (core.label_array(ind) if p["indexing"] == "label" and ind else np.array(ind, dtype=int if p["indexing"] == "position" or not ind else None))
         res = lib(lambda: a.take_axis(arg, axis=axis, indexing=p["indexing"]), what=what, sig=sig)
         compare(res, dims, newlabels(pos), take_expected(vals, ax, pos), what, sig)
